@@ -30,15 +30,49 @@ func selCollideSub(prop string) *engine.Sub {
 	selGen := func(i int) string { return fmt.Sprintf(".acct_%08x", uint32(i)*2654435761) }
 	patGen := func(i int) string { return fmt.Sprintf("p%08x*", uint32(i)*2654435761) }
 	const perHash = 3
+	// C13 additionally: patterns that collide when hashed TOGETHER with the selector they are used with - a table keyed
+	// by one sum over selector, separator, pattern (either order) - for 8 separators and the three commonest sums
+	compSeps := []string{"\x00", "", "|", ":", " ", "\n", "\x1f", "/"}
+	compSepNames := []string{"nul", "none", "bar", "colon", "space", "lf", "us", "slash"}
+	compHashes := []string{"fnv32a", "fnv32", "crc32-ieee"}
+	const compPer = 1
+	compCount := 0
+	if prop == "C13" {
+		compCount = len(compSeps) * 2 * len(compHashes) * compPer
+	}
+	likePairs := func() []collidingPair {
+		prs := append([]collidingPair{}, collidingTexts("like-patterns", patGen, perHash)...)
+		for si, sep := range compSeps {
+			for order := 0; order < 2; order++ {
+				sep, order := sep, order
+				gen := func(i int) string {
+					if order == 0 {
+						return ".s" + sep + patGen(i)
+					}
+					return patGen(i) + sep + ".s"
+				}
+				for _, pr := range collidingTextsFor(fmt.Sprintf("like-composite-%d-%d", si, order), gen, compPer, compHashes) {
+					strip := func(t string) string {
+						if order == 0 {
+							return strings.TrimPrefix(t, ".s"+sep)
+						}
+						return strings.TrimSuffix(t, sep+".s")
+					}
+					prs = append(prs, collidingPair{Hash: fmt.Sprintf("%s(%s)", pr.Hash, [2]string{"selector+sep+pattern", "pattern+sep+selector"}[order]) + "/sep-" + compSepNames[si], A: strip(pr.A), B: strip(pr.B)})
+				}
+			}
+		}
+		return prs
+	}
 	return &engine.Sub{
 		Name:   "texts-whose-hashes-collide",
 		Serial: true,
-		Rule:   "pairs of distinct selector texts .acct_xxxxxxxx of one length (C13: like patterns pxxxxxxxx*) with the same sum under FNV-1a/32, FNV-1/32, CRC-32 (IEEE, Castagnoli), Adler-32, and FNV-1a/64 folded or cut to 32 bits (3 pairs each, found by enumeration and re-verified at start-up); the two texts of a pair enter the library one after the other, in both orders, through selector.Parse, a policy constructor, policy.FromDagJson and policy.FromIPLD; on data in which the two fields hold 1 and 2 (C13: a string that only the first pattern accepts) each selector selects its own field, each statement == sel 1 is true for the first text and false for the second, and each parsed selector prints its own text; non-trivial = all",
+		Rule:   "pairs of distinct selector texts .acct_xxxxxxxx of one length (C13: like patterns pxxxxxxxx*) with the same sum under FNV-1a/32, FNV-1/32, CRC-32 (IEEE, Castagnoli), Adler-32, and FNV-1a/64 folded or cut to 32 bits (3 pairs each, found by enumeration and re-verified at start-up; C13 additionally: pattern pairs that collide when hashed together with their selector - selector, one of 8 separators, pattern, in either order - under FNV-1a/32, FNV-1/32 and CRC-32); the two texts of a pair enter the library one after the other, in both orders, through selector.Parse, a policy constructor, policy.FromDagJson and policy.FromIPLD; on data in which the two fields hold 1 and 2 (C13: a string that only the first pattern accepts) each selector selects its own field, each statement == sel 1 is true for the first text and false for the second, and each parsed selector prints its own text; non-trivial = all",
 		Bound: func(string) string {
 			return fmt.Sprintf("%d hash functions x %d pairs x 4 entry forms x 2 orders", len(collideHashes), perHash)
 		},
 		Gen: func(tier string, emit func(any) bool) {
-			n := len(collideHashes) * perHash
+			n := len(collideHashes)*perHash + compCount
 			for p := 0; p < n; p++ {
 				for f := 0; f < 4; f++ {
 					for _, bf := range []bool{false, true} {
@@ -63,7 +97,7 @@ func selCollideSub(prop string) *engine.Sub {
 			cs := c.(*selCollideCase)
 			var pr collidingPair
 			if cs.Like {
-				pr = collidingTexts("like-patterns", patGen, perHash)[cs.Pair]
+				pr = likePairs()[cs.Pair]
 			} else {
 				pr = collidingTexts("selectors", selGen, perHash)[cs.Pair]
 			}
